@@ -18,7 +18,7 @@ model checking
            unmutated texts.
    edit    <= 2 (thorough 3 resp. 4) editing calls on the empty changelog and on every changelog parsed
            from a short (mutated) text: NormalFormEdited.
-           Spec-level negative controls (all five in the thorough tier, the first and the fourth in the
+           Spec-level negative controls (all in the thorough tier, the first and the fourth in the
            quick tier; each must make TLC report the named invariant): Bug = "noBranch:CNoDetailsReject" ->
            Total; "twoBranches" -> Deterministic; "strictSkips:CEnd" -> StrictIffWarn;
            "trailingFirst" -> NormalForm; "authorOnTruncated" (drops the domain guard) ->
@@ -30,6 +30,22 @@ model checking
            (every observed output is the reference Format of the CURRENT document), NormalFormHist.
            Negative controls Bug = "OlderBlocksMemo" (quick and thorough) and "BlockRenderCache"
            (thorough): the two round-2 seeded changes -> FormatIsCurrent.
+   proc    call histories of one PROCESS (round 5): every complete one-block text of <= 4 lines with <= 2
+           mutations out of the warning classes (defective headings, one-space / bare trailer, junk; the same
+           line twice) is parsed 3 times (thorough: texts of <= 5 lines; 4 times on <= 3 lines) in one process,
+           strict or lenient in every order, the other allow_empty_author setting in the last call where a bare
+           ' --' line makes it matter: ProcHistoryFree (every call has the outcome of the reference parse,
+           whatever was parsed before in whatever mode), StrictIffWarnProc (the statement across calls: ANY
+           strict parse of a text raises exactly when ANY lenient parse of it warns).  Negative controls
+           Bug = "HeadingMemo" (quick and thorough: split heading memoised per process, keyed by the line text,
+           diagnostics on a miss only -> StrictIffWarnProc) and "DiagOnce" (thorough: every diagnostic reported
+           once per process -> ProcHistoryFree).
+   unset   None as an edit value (round 5): <= 2 (thorough 3) calls out of the six attributes assigned None,
+           new_block with / without arguments, add_change, version / author assigned a value, on the empty
+           changelog and on every prefix of a one-block text; Changelog.version = None has two outcomes in the
+           model (unset, or kept as a value -- today the version "None"): NormalFormEdited over both.  Negative
+           control Bug = "unsetFormatsEmpty" (None stored as an empty version: 'pkg () dist' is no heading ->
+           NormalFormEdited).
 binding:   (a) every edge of the closed LTS (control state x class) is replayed: shortest class path to
                the source state + the class (+ the shortest warning-free completion to a state where
                the end-of-input rule is silent, so that every warning kind is also seen as the ONLY
@@ -56,13 +72,38 @@ binding:   (a) every edge of the closed LTS (control state x class) is replayed:
                distributions / pairs, runs of 100 - 1000 lines, 100 - 1000 blocks, 100 - 1000 older
                entries below a formatting history); the laws are self-consistency, so no expectation
                changes;
-           objects / order: the same text is parsed repeatedly, strict and lenient alternating, both
+           (b') every call history of the proc configuration: the text is written afresh (identical lines where
+               TLC says so) and parsed in this process in TLC's order; the verdict is the statement across
+               the calls (cc.run_calls), TLC's outcome per call a diagnostic.  Recorded the other way round:
+               40 (thorough 400) texts -- a well-formed changelog with ONE line replaced by a defective line of
+               the same role, sometimes put in twice, or a randomly mutated one -- parsed 2 .. 6 times in a
+               random strict / lenient order, validated by TLC (TraceChangelog!TProc; golden trace + three
+               corruptions in every run).
+           objects / order: EVERY text of EVERY leg is parsed several times in this process, strict / lenient in
+               one of the call orders TLC enumerated in the proc configuration (LLL LLS LSL LSS SLL SLS SSL SSS
+               and their prefixes; rotating), and the statement is read across the calls: every strict call
+               raises exactly when every lenient call warns.  Random concretizations are written afresh for
+               every judged text (no line of it has been through the parser before: a process-level memo keyed
+               by the line text cannot hide what the first call does), the LTS edge texts with the warning-free
+               completion -- the texts whose ONLY warning is the edge's -- come first.  Both
                allow_empty_author values in random order (every repetition must agree); earlier
                Changelog objects are kept alive and re-verified after other objects were used.
            forms: every text arrives in one of the documented input forms (str, bytes, StringIO, BytesIO, real
                file, lists of str / bytes lines with and without newlines, generator, tuple,
                parse_changelog() on a new / used object) -- identical verdicts; the "empty file" rule
                exists for the text forms only (spec: PEofF, FormsAgree).
+           file-object kinds / alignment (notes/SIZE_STRESS.md part 4): the parser only iterates its input, so
+               every kind of object that yields lines is a form: real file text / binary / unbuffered
+               (buffering=0), io.BufferedReader over a raw stream returning 1 .. 7 bytes per read, GzipFile
+               over a REAL compressed file (fileno() names the compressed file), BZ2File, LZMAFile,
+               SpooledTemporaryFile, TextIOWrapper, a generator of bytes lines (cc.FILE_KINDS; they are drawn
+               in every leg, C04 included).  replay_aligned: well-formed changelogs (and one defective line
+               after the offset) in which the end of a change line inside a block, of a later heading, of the
+               blank line between two blocks, of a trailer and the very end fall exactly at, one before and
+               one after a byte offset 2^k, k = 9 .. 17 (quick: 12, 13, 16, 17 and two others), by a padding
+               change line; each through a rotating file-object kind; the C15 laws plus FormsAgree (same
+               blocks / same "does it warn" as the str form).  ctx.extra["aligned_cases"],
+               ctx.extra["file_object_kinds"].
            characters: notes/SIZE_STRESS.md part 2 (non-NFC text and twins, case-mapping hazards, U+FEFF at
                the start of a text / line, joiners, non-BMP, look-alike white space inside tokens, tab
                indentation).
@@ -85,6 +126,28 @@ add_change: WHERE the line is inserted among the block's change lines is not sta
            quiet-expected mutant c15-add-change-appends must leave the check at exit 0.
 diagnostic (spec drift, never an alarm): warning predictions, block / change / trailing counts, block
            contents, formattability.
+None as an edit value: None is the library's own "not set" value (default of every new_block argument; str()
+           answers ChangelogCreateError for it -- the statement's "can be formatted" clause exists because of
+           it), so assigning None (cl.attr = None, cl.set_attr(None), block.attr = None; six attributes) IS in
+           the domain of the editing calls, with the weak law only: whatever the call makes of it (attribute
+           unset; kept as some value -- cl.version = None stores the version "None" today; rejected with an
+           exception) the changelog is unformattable or formats to a normal form.  WHICH of these happens is
+           not stated (diagnostic).  Other malformed values (empty strings, embedded newlines ...) stay excluded
+           by DESIGN D3: for them the unchanged tree itself does not give a normal form.
+API surface (notes/API_SURFACE.md):
+   Changelog(text) / Changelog(text, strict=..., allow_empty_author=...)   every leg (cc.new_changelog)
+   Changelog().parse_changelog(...) on a new / on a used object            forms reuse_* / reused_* (all legs)
+   input forms str, bytes, lists / tuple / generator of str / bytes lines, file objects of every kind
+                                                                           all legs (rotating), replay_aligned
+   the same text parsed again in the same process (strict / lenient, any order)   all legs (call orders from TLC), (b'), proc traces
+   str(cl), bytes(cl), cl.write_to_open_file(f), str(block)                format histories (c'), edit traces
+   new_block(...) with / without arguments, add_change                     (c), (c'), edit traces
+   cl.attr = v / cl.set_attr(v) / block.attr = v, v well-formed            (c), (c'), edit traces
+   the same with v = None                                                  (c) unset configuration, edit traces
+   cl.version = valid version + white space                                SetVersionWS (unspecified-but-consistent)
+   block.other_pairs[k] = v, block.changes() edited in place, add_trailing_line   (c'), edit traces
+   max_blocks, encoding != utf-8                                           only in the unjudged earlier parses of a reused object
+                                                                           (out of the statement: it speaks of the whole text)
 unspecified: author / date assigned to a block that has no trailer because the input ended inside it
            (str() does not emit a trailer for such a block, so the value cannot survive), and a
            trailing line added to such a block with add_trailing_line (it is formatted right after the
@@ -102,7 +165,7 @@ from lts import skey
 MANIFEST = dict(
     technique="TLA+ spec Changelog (parse_changelog as five-state automaton over 24 line classes with incremental outputs, EOF / empty-file rules, formatter, editing calls) model-checked by TLC: closed LTS (Total, Deterministic, StrictIffWarn) and bounded mutated texts / edit histories (NormalForm); every LTS edge, every bounded text and every edit history replayed into Changelog with both allow_empty_author settings; prefix-closure traces of mutated changelogs and random edit histories validated by TLC (TraceChangelog)",
     text="TLC explores the closed control-state space of the parser (5 states x flags, 24 line classes, both allow_empty_author settings) and checks that exactly one branch handles every class in every state, that the if/elif cascade equals the guard table, and that a strict run raises exactly when the lenient run has warned, including the end-of-input and empty-file rules. A bounded configuration enumerates every text of up to 6 lines that is one or two line mutations (insert any class, delete, duplicate) away from a well-formed changelog, plus all prefixes, and checks that whatever the parser builds, if it can be formatted, formats to a fixpoint of parse-then-format with the same blocks; an edit configuration does the same after up to 4 editing calls on empty or parsed changelogs. All of these texts and histories are concretized (old-format markers, mode lines, keywords, comments, one-space and bare trailers, junk, defective headers) and replayed into the real class: the lenient constructor must return, warnings > 0 must coincide with ChangelogParseError from the strict constructor, and str() output must re-parse to the same blocks and the identical text. Random mutated changelogs of up to 60 lines and random editing histories are recorded by prefix closure with independently classified lines and validated by TLC.",
-    note="Small scope: closed LTS over classes (unbounded length), normal-form law exhaustively for <= 6 lines / <= 2 mutations / <= 4 edits; longer inputs sampled. The C15 verdicts are the self-consistency laws of the statement; TLC's predictions of warnings, counts and contents are diagnostics (drift). Unspecified: author/date assigned on a block without trailer. Lines never contain a str.splitlines() boundary character (DESIGN D1); editing calls get well-formed values (D3). Nine spec-level negative controls (among them the two formatter caches of the round-2 seeded changes) and corrupted control traces are required to fail (quick tier: three of them). Formatting is part of every history (formatted before and between edits, edits on older blocks and in place); sizes follow notes/SIZE_STRESS.md.",
+    note="Round 5: a parse depends on nothing but its own input also across the parses of one PROCESS (Mode proc: every text is parsed several times, strict / lenient in every order TLC enumerates, the statement is read across the calls; negative controls HeadingMemo / DiagOnce); None as an edit value is in the domain with the weak law 'unformattable or a normal form' (negative control unsetFormatsEmpty); file-object kinds and block-boundary alignment per notes/SIZE_STRESS.md part 4. Small scope: closed LTS over classes (unbounded length), normal-form law exhaustively for <= 6 lines / <= 2 mutations / <= 4 edits; longer inputs sampled. The C15 verdicts are the self-consistency laws of the statement; TLC's predictions of warnings, counts and contents are diagnostics (drift). Unspecified: author/date assigned on a block without trailer. Lines never contain a str.splitlines() boundary character (DESIGN D1); editing calls get well-formed values (D3). Thirteen spec-level negative controls (among them the two formatter caches of the round-2 seeded changes, the process-level heading memo and the empty version of round 5) and corrupted control traces are required to fail (quick tier: six of them). Formatting is part of every history (formatted before and between edits, edits on older blocks and in place); sizes follow notes/SIZE_STRESS.md.",
     design="5 (C15)")
 
 SUBSET = '{"Junk", "EndNoDetails", "EndOneSpace", "Vim", "HashComment", "TopBadKV", "Old8"}'
@@ -120,24 +183,29 @@ CFG = """CONSTANTS
   MaxEdits = %(edits)d
   Bug = "%(bug)s"
   Emit = %(emit)s
-SPECIFICATION Spec
+%(extra)sSPECIFICATION Spec
 %(invs)s
 CHECK_DEADLOCK FALSE
 """
 TEXT_INVS = ["BookkeepingOK", "StrictIffWarn", "SlurpOnlyFromHeading", "TrailingHasTarget", "NoWarning", "RoundTrip",
              "BlocksAsWritten", "NormalForm", "FormsAgree", "CleanRoundTrip"]
 EDIT_INVS = ["BookkeepingOK", "NormalForm", "NormalFormEdited"]
+PROC_INVS = ["BookkeepingOK", "StrictIffWarn", "ProcHistoryFree", "StrictIffWarnProc"]
+PROC_CLASSES = '= {"TopBadKV", "TopDupKey", "TopBadUrg", "Junk", "EndOneSpace", "EndNoDetails"}'
+UNSET_OPS_USED = "  EditOpsUsed <- UnsetFocusOps\n"
 # (CascadeAgrees is a constant-level formula: it is checked in MC_Changelog_lts.cfg only)
 LTS_INVS = ["LtsTypeOK", "Total", "Deterministic", "StrictIffWarn", "SlurpOnlyFromHeading", "TrailingHasTarget"]
 
 
-def cfg(mode, classes="<- AllClasses", lines=0, blocks=0, body=0, budget=0, edits=0, bug="none", emit=True, invs=(), lead=1):
+def cfg(mode, classes="<- AllClasses", lines=0, blocks=0, body=0, budget=0, edits=0, bug="none", emit=True, invs=(), lead=1, extra=""):
     invs = list(invs)
+    if emit and mode == "proc":
+        invs.append("EmitProc")
     if emit and mode == "text":
         invs.append("EmitText")
     if emit and mode == "edit":
         invs.append("EmitEdit")
-    return CFG % dict(mode=mode, classes=classes, lines=lines, blocks=blocks, body=body, budget=budget, edits=edits, lead=lead,
+    return CFG % dict(mode=mode, classes=classes, lines=lines, blocks=blocks, body=body, budget=budget, edits=edits, lead=lead, extra=extra,
                       bug=bug, emit="TRUE" if emit else "FALSE", invs="\n".join("INVARIANT " + i for i in invs))
 
 
@@ -151,7 +219,16 @@ NEG_CONTROLS = [
                               emit=False, invs=EDIT_INVS), {"NormalFormEdited"}),
     ("acceptsNewlineVersion", cfg("edit", classes="= {}", lines=2, blocks=1, body=1, budget=0, edits=1, bug="acceptsNewlineVersion",
                                   emit=False, invs=EDIT_INVS), {"NormalFormEdited"}),
+    # process-level memo of the split heading, keyed by the line text (round-5 seeded change): the statement across calls
+    ("HeadingMemo", cfg("proc", classes='= {"TopBadKV"}', lines=3, blocks=1, body=1, budget=2, edits=2, bug="HeadingMemo", emit=False,
+                        invs=["StrictIffWarnProc"], lead=0), {"StrictIffWarnProc"}),
+    ("DiagOnce", cfg("proc", classes='= {"Junk", "EndOneSpace"}', lines=3, blocks=1, body=1, budget=1, edits=2, bug="DiagOnce", emit=False,
+                     invs=["ProcHistoryFree"], lead=0), {"ProcHistoryFree"}),
+    # version = None stored as an empty version: 'pkg () dist' is no heading (round-5 seeded change)
+    ("unsetFormatsEmpty", cfg("edit", classes="= {}", lines=3, blocks=1, body=1, budget=0, edits=1, bug="unsetFormatsEmpty", emit=False,
+                              invs=EDIT_INVS, lead=0, extra=UNSET_OPS_USED), {"NormalFormEdited"}),
 ]
+QUICK_CONTROLS = ("noBranch:CNoDetailsReject", "trailingFirst", "HeadingMemo", "unsetFormatsEmpty")
 
 
 def neg_control(ctx, name, text, want):
@@ -231,15 +308,21 @@ def replay_edge(ctx, rng, e, path, eof, canonical, completion=(), stress=False):
     lines_full, _ = cc.conc_text(rng, full, canonical=canonical, stress=stress)
     lines = lines_full[:len(classes)]
     case = {"kind": "text", "lines": lines, "aea": aea, "classes": classes}
-    for n in (len(lines) - 1, len(lines), len(lines_full)):
-        if n == 0:
-            continue
+    # the text with the completion comes first and (random concretizations) every judged text is written
+    # afresh: no line of it has been through the parser in this process before, so what the first call
+    # (strict or lenient, per the plan) does with it is seen
+    # (the prefix without the edge's own line is the text of another edge -- the last one of the shortest path)
+    for n in (len(lines_full), len(lines)):
+        judged = lines_full[:n] if canonical or n == len(lines_full) else cc.conc_text(rng, full[:n], stress=stress)[0]
         form = rng.choice(cc.FORMS_W)
-        msg, _info = cc.c15_laws(cc.join(lines_full[:n]), aea, rng, form)
+        msg, info = cc.c15_laws(cc.join(judged), aea, rng, form)
+        if info.get("repeat_drift"):
+            ctx.drift("edge %s --%s--> %s: %s" % (e["from"]["st"], e["c"], e["to"]["st"], info["repeat_drift"]))
         if msg:
             case["form"] = form
-            case["lines"] = lines_full[:n]
+            case["lines"] = judged
             case["classes"] = full[:n]
+            case["plan"] = info.get("plan")
             return case, msg
     # diagnostics: the incremental output of the branch, seen through the end-of-input rule on both sides
     if len(lines) < 2:
@@ -277,8 +360,10 @@ def replay_text(ctx, rng, case, aea, canonical, stats, stress=False, alive=None)
     msg, info = cc.c15_laws(text, aea, rng, form)
     if alive is not None and info.get("cl") is not None:
         alive.add(info["cl"], "text %s" % "".join(c[0] for c in classes))
+    if info.get("repeat_drift"):
+        ctx.drift("text %s aea=%s: %s" % ("".join(c[0] for c in classes), aea, info["repeat_drift"]))
     if msg:
-        return {"kind": "text", "lines": lines, "aea": aea, "classes": classes, "form": form}, msg
+        return {"kind": "text", "lines": lines, "aea": aea, "classes": classes, "form": form, "plan": info.get("plan")}, msg
     if cc.form_kind(form) == "lines" and not text.strip():
         return None, None           # blank-only text as lines: no "empty file" rule (PEofF); TLC's predictions below are for the text forms
     # diagnostics against TLC's predictions
@@ -322,10 +407,87 @@ def replay_big(ctx, rng, quick):
             n += 1
             if msg:
                 keep = len(ls) <= 400
-                ctx.violation({"kind": "text", "lines": ls if keep else ls[:400], "aea": aea, "classes": [], "truncated": not keep, "form": form},
+                ctx.violation({"kind": "text", "lines": ls if keep else ls[:400], "aea": aea, "classes": [], "truncated": not keep, "form": form,
+                               "plan": _info.get("plan")},
                               "size-stressed text (%s, %d lines, longest %d characters): %s" % (mode, len(ls), max(map(len, ls)), msg))
                 return n
     return n
+
+
+# ------------------------------------------------------------------ (b') call histories of one process
+
+def replay_proc(ctx, rng, cases, quick):
+    """every call history TLC enumerated in the "proc" configuration: the text (identical lines where TLC
+    says so) is written afresh and parsed in this process in TLC's order; the statement across the calls
+    is the verdict (cc.run_calls), TLC's outcome per call (warnings / raised) a diagnostic"""
+    n = 0
+    for ci, c in enumerate(cases):
+        lines = cc.conc_same(rng, c["t"], c["same"], stress=(ci % 50 == 13))
+        calls = [(x["s"], x["a"]) for x in c["calls"]]
+        form = rng.choice(cc.TEXT_FORMS if not "".join(lines).strip() else cc.FORMS_W)
+        msg, obs = cc.run_calls(cc.join(lines), calls, form)
+        ctx.case_seen(("proc", tuple(c["t"]), tuple(c["same"]), tuple(calls)), True)
+        n += 1
+        if msg:
+            ctx.violation({"kind": "proc", "lines": lines, "calls": [list(x) for x in calls], "form": form, "classes": c["t"]}, msg)
+            if len(ctx.violations) >= 5:
+                break
+            continue
+        for x, e in zip(c["calls"], obs):
+            if (e["sr"] != x["r"]) if x["s"] else ((e["w"] > 0) != (x["w"] > 0)):
+                ctx.drift("process history %s on %s: call outcome %s, specification predicts %s" % (
+                    "".join("S" if k[0] else "L" for k in calls), "/".join(c["t"]),
+                    e["sr"] if x["s"] else e["w"], x["r"] if x["s"] else x["w"]))
+                break
+    return n
+
+
+def replay_aligned(ctx, rng, quick):
+    """notes/SIZE_STRESS.md part 4: texts in which a line end -- of a change line inside a block, of a later
+    heading, of the blank line between two blocks, of a trailer, the very end -- falls exactly at, one
+    before and one after a byte offset 2^k (k = 9 .. 17), handed over through every kind of file object
+    (and as str / bytes).  The C15 laws need no expectation (self-consistency)."""
+    n = 0
+    kinds = {}
+    ks = cc.ALIGN_K if not quick else (12, 13, 16, 17) + tuple(rng.sample([9, 10, 11, 14, 15], 2))
+    file_forms = [f for f in cc.LINE_FORMS if f not in ("list", "list_nl", "list_bytes", "tuple", "reuse_list", "iter")]
+    fi = rng.randrange(len(file_forms))
+    for k in ks:
+        _cls, base, _c = cc.gen_wellformed(rng, rng.choice([12, 20]))
+        while sum(1 for l in base if cc.classify(l)[0] == "TopOK") < 2:
+            _cls, base, _c = cc.gen_wellformed(rng, 20)
+        pos = cc.aligned_positions(base)
+        for where in sorted(pos):
+            for delta in (-1, 0, 1):
+                if quick and (n + k) % 2 and where in ("trailer", "change"):
+                    continue            # quick: a rotating half of the two cheaper positions
+                lines = cc.align_lines(base, pos[where], 2 ** k + delta, wide=bool((k + delta) % 2))
+                if lines is None:
+                    continue
+                if rng.random() < 0.4:          # and one defective line AFTER the steered offset
+                    t, _k = cc.conc_line(rng, rng.choice(cc.ALL_CLASSES))
+                    lines.insert(rng.randint(pos[where] + 2, len(lines)), t)
+                fi += 1
+                form = file_forms[fi % len(file_forms)] if n % 5 else rng.choice(cc.TEXT_FORMS)
+                aea = bool(n % 2)
+                msg, info = cc.c15_laws(cc.join(lines), aea, rng, form)
+                kinds[form] = kinds.get(form, 0) + 1
+                ctx.case_seen(("aligned", k, where, delta), True)
+                n += 1
+                if not msg and form != "str":
+                    # the input FORM is not part of the text (spec: FormsAgree): handed over as a str the same
+                    # text gives the same blocks and the same answer to "does it warn"
+                    o = cc.construct(cc.join(lines), aea=aea, form="str")
+                    if o.exc or info.get("cl") is None:
+                        msg = "lenient constructor raised %s" % o.exc
+                    elif cc.blocks_of(o.cl) != cc.blocks_of(info["cl"]) or (o.nwarn > 0) != (info["nwarn"] > 0):
+                        msg = "the same text gives other blocks / warnings when handed over as %s (%d blocks, %d warnings) than as a str (%d blocks, %d warnings)" % (
+                            form, len(info["cl"]), info["nwarn"], len(o.cl), o.nwarn)
+                if msg:
+                    ctx.violation({"kind": "text", "lines": lines, "aea": aea, "classes": [], "form": form, "plan": info.get("plan")},
+                                  "text whose %s line ends at byte offset 2^%d%+d, input form %s: %s" % (where, k, delta, form, msg))
+                    return n, kinds
+    return n, kinds
 
 
 # ------------------------------------------------------------------ (c) edit histories
@@ -342,7 +504,7 @@ def replay_edit(ctx, rng, case, canonical, stats):
         fmt_ok = msg[1]
         stats["formattable"] += fmt_ok
         stats["unspecified"] += not case["spec"]
-        if fmt_ok != case["fmt"]:
+        if fmt_ok not in case.get("fmts", [case["fmt"]]):
             ctx.drift("edit %s %s: formattable=%s, specification predicts %s" % (classes, ops, fmt_ok, case["fmt"]))
         return None, None
     return rec, msg
@@ -390,11 +552,15 @@ def run(ctx):
     ]
     import time
     t_phase = [time.time()]
+    c_phase = [time.process_time()]
     phases = ctx.extra.setdefault("phase_wall_s", {})
+    phases_cpu = ctx.extra.setdefault("phase_cpu_s", {})     # (this process only: what the replay legs cost without the machine's load)
 
     def lap(name):
         t_phase.append(time.time())
+        c_phase.append(time.process_time())
         phases[name] = round(t_phase[-1] - t_phase[-2], 1)
+        phases_cpu[name] = round(c_phase[-1] - c_phase[-2], 1)
     # ---- (d) code -> spec: record first (the recorder does not depend on TLC)
     ntr, nedit, maxlines = (70, 60, 40) if quick else (1000, 1000, 60)
     traces = []
@@ -417,13 +583,32 @@ def run(ctx):
                           "lenient constructor raised %s" % cc.construct(cc.join(lines), aea=bool(i % 2)).exc)
             continue
         traces.append(t)
+    # call histories of one process: one text (often with a single defective line, sometimes put in twice),
+    # parsed 2 .. 6 times strict / lenient in a random order
+    nproc = 40 if quick else 400
+    for i in range(nproc):
+        if i % 4 == 3:
+            _cls, lines, _ = cc.gen_wellformed(rng, rng.choice([5, 10, 20]))
+            lines = cc.mutate(rng, lines, rng.choice([0, 1, 2, 3]), 24)
+        else:
+            lines, _i = cc.gen_single_defect(rng, rng.choice([6, 10, 14]))
+        if not lines:
+            continue
+        traces.append(cc.record_proc_trace(lines, aea=bool(i % 2), calls=cc.random_calls(rng, lines),
+                                           form=rng.choice(cc.TEXT_FORMS if not "".join(lines).strip() else cc.FORMS_W)))
     lap("record_traces")
     W = 4 if quick else 8
     jobs = [("lts", "MC_Changelog_lts.cfg", 1, {"EDGE"})]
     if quick:
         jobs += [("text", "MC_Changelog_c15_mut_quick.cfg", W, {"CASE"}),
-                 ("edit", "MC_Changelog_c15_edit_quick.cfg", W, {"CASE"})]
+                 ("edit", "MC_Changelog_c15_edit_quick.cfg", W, {"CASE"}),
+                 ("proc", "MC_Changelog_c15_proc_quick.cfg", 2, {"CASE"}),
+                 ("unset", "MC_Changelog_c15_unset_quick.cfg", 2, {"CASE"})]
     else:
+        jobs += [("proc", cfg("proc", classes=PROC_CLASSES, lines=5, blocks=1, body=1, budget=2, edits=3, invs=PROC_INVS, lead=0).replace("AEAs = {TRUE, FALSE}", "AEAs = {FALSE}"), W, {"CASE"}),
+                 ("proc4", cfg("proc", classes='= {"TopBadKV", "EndOneSpace", "EndNoDetails"}', lines=3, blocks=1, body=1, budget=2, edits=4, invs=PROC_INVS, lead=0), W, {"CASE"}),
+                 ("unset", cfg("edit", classes='= {"EndNoDetails"}', lines=3, blocks=1, body=1, budget=1, edits=2, invs=EDIT_INVS, lead=0, extra=UNSET_OPS_USED).replace("AEAs = {TRUE, FALSE}", "AEAs = {FALSE}"), W, {"CASE"}),
+                 ("unset3", cfg("edit", classes="= {}", lines=2, blocks=1, body=1, budget=0, edits=3, invs=EDIT_INVS, lead=0, extra=UNSET_OPS_USED).replace("AEAs = {TRUE, FALSE}", "AEAs = {FALSE}"), W, {"CASE"})]
         jobs += [("text", cfg("text", lines=4, blocks=2, body=2, budget=2, invs=TEXT_INVS), W, {"CASE"}),
                  ("text7", cfg("text", lines=7, blocks=2, body=2, budget=1, invs=TEXT_INVS), W, {"CASE"}),
                  ("edit", cfg("edit", classes='= {"Junk", "EndNoDetails"}', lines=3, blocks=1, body=1, budget=1, edits=3, invs=EDIT_INVS, lead=0), W, {"CASE"}),
@@ -431,8 +616,8 @@ def run(ctx):
     jobs += [("hist", cc.hist_cfg(3, 1), 2 if quick else 6, {"CASE"})] + ([] if quick else [("hist4", cc.hist_cfg(4, 0), 6, {"CASE"})])
     res = {}
     # quick: two of the negative controls (closed automaton, normal-form law); thorough: all five
-    controls_now = [n for n in NEG_CONTROLS if not quick or n[0] in ("noBranch:CNoDetailsReject", "trailingFirst")]
-    with ThreadPoolExecutor(max_workers=4 if quick else 3) as ex:
+    controls_now = [n for n in NEG_CONTROLS if not quick or n[0] in QUICK_CONTROLS]
+    with ThreadPoolExecutor(max_workers=5 if quick else 3) as ex:
         f_traces = ex.submit(cc.validate, ctx, traces)
         futs = {name: ex.submit(ctx.tlc_must_hold, "Changelog", c, workers=w, want_tags=tags, java_opts=cc.jopts(ctx)) for name, c, w, tags in jobs[1:]}
         futs["lts"] = ex.submit(ctx.tlc_must_hold, "Changelog", jobs[0][1], workers=1, want_tags={"EDGE"}, java_opts=cc.jopts(ctx))
@@ -448,6 +633,20 @@ def run(ctx):
     ctx.tlc_runs.sort(key=lambda x: (-x["distinct"], str(x["violated"])))
 
     lap("tlc")
+    # ---- the ORDERS in which every text of every leg is parsed strict / lenient: the call orders of the "proc" configuration
+    pcases = []
+    for name in ("proc", "proc4"):
+        if name in res:
+            for c in res[name].printed.get("CASE", []):
+                if not isinstance(c, dict):
+                    raise core.MachineryError("unparsable CASE line %r" % (c,))
+                pcases.append(c)
+    plans = {tuple(x["s"] for x in c["calls"]) for c in pcases}
+    plans = sorted(plans | {p[:2] for p in plans})          # (a prefix of a call history is a call history: TLC went through it)
+    if len(plans) < 8:
+        raise core.MachineryError("the proc configuration produced %d call orders only" % len(plans))
+    cc.PLANS = plans
+    ctx.extra["call_orders"] = ["".join("S" if x else "L" for x in p) for p in plans]
     # ---- (a) the closed LTS
     edges = [e for e in res["lts"].printed.get("EDGE", []) if isinstance(e, dict)]
     branches = {}
@@ -524,10 +723,27 @@ def run(ctx):
         "/".join(k[0]), k[1], json.dumps(cc.join(lines), ensure_ascii=False), cases[k]["nw"], cases[k]["fmt"], json.dumps(cases[k]["doc"])))
 
     n_text += replay_big(ctx, rng, quick)
+    lap("replay_texts")
+    n_al, kinds = replay_aligned(ctx, rng, quick)
+    n_text += n_al
+    ctx.extra["aligned_cases"] = n_al
+    ctx.extra["file_object_kinds"] = kinds
+    lap("replay_aligned")
+    # ---- (b') call histories of one process
+    pcases.sort(key=lambda c: (len(c["t"]), json.dumps(c, sort_keys=True)))
+    n_proc = replay_proc(ctx, rng, pcases, quick)
+    n_text += n_proc
+    ctx.extra["process_histories"] = {"states": sum(res[n].distinct for n in ("proc", "proc4") if n in res), "cases": len(pcases), "replayed": n_proc,
+                                      "distinct_texts": len({(tuple(c["t"]), tuple(c["same"])) for c in pcases})}
+    if pcases:
+        c = pcases[len(pcases) // 2]
+        ctx.sample("process history: text %s (same-line map %s) parsed %s; TLC: %s" % (
+            "/".join(c["t"]), c["same"], " ".join(("S" if x["s"] else "L") + ("+aea" if x["a"] else "") for x in c["calls"]),
+            json.dumps([x["r"] if x["s"] else x["w"] for x in c["calls"]])))
+    lap("replay_proc")
     m = alive.recheck()
     if m:
         ctx.violation({"kind": "alive", "note": m}, m)
-    lap("replay_texts")
     # ---- (c') formatting as part of the history: TLC's reference output for every history that ends in a formatting call
     hcases = []
     for name in ("hist", "hist4"):
@@ -544,12 +760,16 @@ def run(ctx):
     estats = {"formattable": 0, "unspecified": 0}
     n_edit = 0
     ecases = {}
-    for name in ("edit", "edit4"):
+    for name in ("edit", "edit4", "unset", "unset3"):
         if name in res:
             for c in res[name].printed.get("CASE", []):
                 if not isinstance(c, dict):
                     raise core.MachineryError("unparsable CASE line %r" % (c,))
-                ecases.setdefault((tuple(c["t"]), c["aea"], tuple(c["ops"])), c)
+                # (an Unset.. call has two outcomes in the model -- unset, or kept as a value: one history, the
+                #  real object takes one of them; it is judged only where every outcome is Specified)
+                k0 = ecases.setdefault((tuple(c["t"]), c["aea"], tuple(c["ops"])), c)
+                k0.setdefault("fmts", []).append(c["fmt"])
+                k0["spec"] = k0["spec"] and c["spec"]
     ekeys = sorted(ecases, key=lambda k: (len(k[2]), len(k[0]), k))
     for k in ekeys:
         case, msg = replay_edit(ctx, rng, ecases[k], canonical=False, stats=estats)
@@ -559,7 +779,8 @@ def run(ctx):
             ctx.violation(case, msg)
             if len(ctx.violations) >= 5:
                 break
-    ctx.extra["edit_histories"] = {"states": sum(res[n].distinct for n in ("edit", "edit4") if n in res), "replayed": n_edit,
+    ctx.extra["edit_histories"] = {"states": sum(res[n].distinct for n in ("edit", "edit4", "unset", "unset3") if n in res), "replayed": n_edit,
+                                   "with_None_assigned": sum(1 for k in ekeys if any(o.startswith("Unset") for o in k[2])),
                                    "formattable": estats["formattable"], "in_unspecified_zone": estats["unspecified"]}
     k = ekeys[len(ekeys) * 3 // 4]
     ctx.sample("edit history: text %s aea=%s ops=%s; TLC: formattable=%s specified=%s" % (
@@ -573,22 +794,34 @@ def run(ctx):
     ctx.evaluations += len(traces)
     for i in range(len(traces)):
         ctx.distinct.add(("trace", i))
-    ctx.extra["traces"] = {"parse": ntr, "edit": len(traces) - ntr,
+    ctx.extra["traces"] = {"parse": ntr, "edit": sum(1 for t in traces if t["kind"] == "edit"), "process": sum(1 for t in traces if t["kind"] == "proc"),
                            "events": sum(len(t["lines"]) if t["kind"] == "parse" else len(t["ops"]) for t in traces),
                            "rejected": len(viol), "drifting": len(drift)}
     for i in drift[:10]:
         t = traces[i - 1]
         at = info.get(i, 0)
         ctx.drift("%s trace %d: diagnostic mismatch at event %d (%r)" % (
-            t["kind"], i, at + 1, (t["text"][at] if t["kind"] == "parse" and at < len(t["text"]) else [t["calls"][at][k] for k in ("op", "i", "x")] if t["kind"] == "edit" and at < len(t["calls"]) else None)))
+            t["kind"], i, at + 1, (t["text"][at] if t["kind"] == "parse" and at < len(t["text"]) else [t["calls"][at][k] for k in ("op", "i", "x")] if t["kind"] == "edit" and at < len(t["calls"]) else
+                                   t["ops"][at] if t["kind"] == "proc" and at < len(t["ops"]) else None)))
     tp = traces[0]
     ctx.sample("parse trace, last event of %d: %s" % (len(tp["lines"]), json.dumps({k: v for k, v in tp["lines"][-1].items() if k != "doc"}, separators=(",", ":"))))
-    te = traces[-1]
+    te = [t for t in traces if t["kind"] == "edit"][-1]
     ctx.sample("edit trace, first event of %d: %s" % (len(te["ops"]), json.dumps(te["ops"][0], separators=(",", ":"))))
+    tq = traces[-1]
+    ctx.sample("process trace (%d lines): %s" % (len(tq["lines"]), json.dumps(tq["ops"], separators=(",", ":"))))
     for i in viol[:5]:
         t = traces[i - 1]
         at = info.get(i, 0)
-        if t["kind"] == "parse":
+        if t["kind"] == "proc":
+            ctx.violation({"kind": "trace", "trace": {"kind": "proc", "text": t["text"], "aea": t["aea"], "calls": t["calls"], "iform": t["iform"]},
+                           "first_unexplained_event": at + 1},
+                          "the text was parsed %s in one process; call %d: %s" % (
+                              "/".join("strict" if c[0] else "lenient" for c in t["calls"]), at + 1,
+                              "strict %s although a lenient parse of the same text emitted %s warning(s)" % (
+                                  ("raised", "no") if t["ops"][min(at, len(t["ops"]) - 1)]["sr"] else ("returned", "a"))
+                              if at < len(t["ops"]) and t["ops"][at]["s"] and t["ops"][at]["ok"] else
+                              "observation not explained by the specification: %s" % json.dumps(t["ops"][at] if at < len(t["ops"]) else None)))
+        elif t["kind"] == "parse":
             ev = {k: v for k, v in t["lines"][at].items() if k != "doc"} if at < len(t["lines"]) else None
             ctx.violation({"kind": "trace", "trace": {"kind": "parse", "text": t["text"], "aea": t["aea"], "wf": False, "iform": t["iform"]},
                            "first_unexplained_event": at + 1},
@@ -620,11 +853,18 @@ def replay(ctx, case):
         if case.get("truncated"):
             return "the size-stressed text was too large to record; re-run ./check C15 with the same seed"
         import random
+        if case.get("plan"):            # the recorded order first (a replay runs in a new process: every line is new to it)
+            msg, _ = cc.c15_laws(cc.join(case["lines"]), case["aea"], None, case.get("form", "str"), plan=case["plan"])
+            if msg:
+                return msg
         for seed in range(4):           # the laws also cover repeated parses in varying order
             msg, _ = cc.c15_laws(cc.join(case["lines"]), case["aea"], random.Random(seed), case.get("form", "str"))
             if msg:
                 return msg
         return None
+    if kind == "proc":
+        msg, _obs = cc.run_calls(cc.join(case["lines"]), [tuple(c) for c in case["calls"]], case.get("form", "str"))
+        return msg
     if kind == "hist":
         return cc.run_hist(dict(case, contents=cc.norm_contents(case["contents"]), tail_contents=cc.norm_contents(case.get("tail_contents", []))), c04=False)
     if kind == "alive":
